@@ -26,6 +26,15 @@ CHECKS = {
                      'document; every path with an injected failure must end in Err(WriterError::Io), never a panic or Ok. Violations are replayed on '
                      'the natively built zeep-lib with a failing io::Write.',
                 note='trusted: SMI environment models (validated byte-for-byte against the native binary on 9 repository inputs per run), z3; corpus documents bound the claim'),
+    'C02': dict(engine='E2-smi', cat='model_checking', design='4/C02',
+                technique='symbolic execution of reader + emitter MIR over parametrised schemas; z3 decides each oracle obligation per path; native replay',
+                text='The MIR of the XSD reader (RustNode/ComplexProps/SimpleProps/ElementProps/Field::try_from_node) and of the struct emitters is executed '
+                     'symbolically on schema families whose member name, type (27 builtins + user types), minOccurs/maxOccurs (on the member and on the '
+                     'enclosing particle), attribute use and declaration order are symbolic selectors; for every path z3 decides whether some assignment '
+                     'makes an emitted struct differ from the reference model (exactly one PascalCase struct per component, one field per declared member in '
+                     'order, snake_case raw-escaped identifier, T / Option<T> / Vec<T> with T from the pinned table). Models are replayed on the native binary. '
+                     'The thorough tier adds the Kani harness of the builtin table over all byte strings per length.',
+                note='trusted: SMI environment models (validated against the native binary each run), the reference model in smi/oracles.py; bounded to the scenario shapes (<=4 members, one nesting level)'),
 }
 
 NA = {
@@ -33,7 +42,7 @@ NA = {
     'C04': 'deserialization and round-trip are executed by yaserde derive expansion and xml-rs at run time (fmt/dyn/heap); CBMC cannot get through it and the MIR interpreter covers zeep, not yaserde',
     'C18': 'Send/Sync are auto-trait facts computed by rustc from the coroutine layout, not properties of executions a bounded symbolic run can falsify',
 }
-PENDING = ['C02', 'C03', 'C05', 'C07', 'C08', 'C09', 'C10', 'C11', 'C12', 'C13', 'C14', 'C16', 'C17']
+PENDING = ['C03', 'C05', 'C07', 'C08', 'C09', 'C10', 'C11', 'C12', 'C13', 'C14', 'C16', 'C17']
 
 
 def main():
